@@ -495,6 +495,38 @@ fn async_delegation(src: &mut Src) -> Result<String, String> {
     Ok(o)
 }
 
+// ---------------------------------------------------------------- loops
+
+/// Every function under src/iterators and src/ring_buffer/wrappers that contains a loop, with the loop kinds.
+fn loops(src: &mut Src) -> Result<String, String> {
+    let mut files = vec![];
+    all_rs(&src.root.join("src/iterators"), &mut files);
+    all_rs(&src.root.join("src/ring_buffer/wrappers"), &mut files);
+    all_rs(&src.root.join("src/ring_buffer/variants"), &mut files);
+    let mut out: Vec<String> = vec![];
+    struct L { kinds: Vec<&'static str> }
+    impl<'ast> Visit<'ast> for L {
+        fn visit_expr_while(&mut self, e: &'ast syn::ExprWhile) { self.kinds.push("while"); syn::visit::visit_expr_while(self, e); }
+        fn visit_expr_loop(&mut self, e: &'ast syn::ExprLoop) { self.kinds.push("loop"); syn::visit::visit_expr_loop(self, e); }
+        fn visit_expr_for_loop(&mut self, e: &'ast syn::ExprForLoop) { self.kinds.push("for"); syn::visit::visit_expr_for_loop(self, e); }
+    }
+    struct F<'a> { rel: String, out: &'a mut Vec<String> }
+    impl<'a, 'ast> Visit<'ast> for F<'a> {
+        fn visit_impl_item_fn(&mut self, f: &'ast syn::ImplItemFn) { let mut l = L { kinds: vec![] }; l.visit_block(&f.block); if !l.kinds.is_empty() { self.out.push(format!("(\"{}\", \"{}\")", f.sig.ident, l.kinds.join("+"))); } }
+        fn visit_trait_item_fn(&mut self, f: &'ast syn::TraitItemFn) { if let Some(b) = &f.default { let mut l = L { kinds: vec![] }; l.visit_block(b); if !l.kinds.is_empty() { self.out.push(format!("(\"{}\", \"{}\")", f.sig.ident, l.kinds.join("+"))); } } }
+        fn visit_item_fn(&mut self, f: &'ast syn::ItemFn) { let mut l = L { kinds: vec![] }; l.visit_block(&f.block); if !l.kinds.is_empty() { self.out.push(format!("(\"{}\", \"{}\")", f.sig.ident, l.kinds.join("+"))); } }
+    }
+    for f in files {
+        let rel = f.strip_prefix(&src.root).unwrap().to_string_lossy().to_string();
+        let file = src.file(&rel)?.clone();
+        let mut v = F { rel: rel.clone(), out: &mut out };
+        v.visit_file(&file);
+        let _ = v.rel;
+    }
+    out.sort(); out.dedup();
+    Ok(format!("def loops : List (String × String) := [{}]\n", out.join(", ")))
+}
+
 pub fn table_items(src: &mut Src, items: &mut Vec<Item>) {
     let mut add = |name: &str, origin: &str, body: Result<String, String>| {
         items.push(Item { name: name.into(), file: "Tables", origin: origin.into(), body });
@@ -506,5 +538,6 @@ pub fn table_items(src: &mut Src, items: &mut Vec<Item>) {
     add("storeKinds", "src/iterators/sync_iterators/prod_iter.rs: the store each push form performs", store_kinds(src));
     add("sendSync", "every `unsafe impl Send/Sync`, `impl ConcurrentRB`, struct fields, wake call sites under src/", send_sync(src));
     add("asyncDelegation", "src/iterators/async_iterators/*.rs: which synchronous method each future runs; MRBFuture::poll", async_delegation(src));
+    add("loops", "every function of the iterators / buffer variants / wrappers that contains a loop", loops(src));
     add("pins", "cell primitives (check_zeroed, take_inner, inner_duplicate, Drop) and copy_from_slice_unchecked", pins(src));
 }
